@@ -332,7 +332,13 @@ static inline int32_t timerlist_add_duration(struct timerlist *timerlist,
 		return -ENOMEM;
 	}
 
-	timer->expire_time = qb_util_nano_current_get() + nano_duration;
+	timer->expire_time = qb_util_nano_current_get();
+	/* "never" rather than wrapping round to "long ago" */
+	if (nano_duration > UINT64_MAX - timer->expire_time) {
+		timer->expire_time = UINT64_MAX;
+	} else {
+		timer->expire_time += nano_duration;
+	}
 	timer->is_absolute_timer = QB_FALSE;
 	timer->data = data;
 	timer->timer_fn = timer_fn;
